@@ -20,6 +20,7 @@ package main
 import (
 	"bufio"
 	"bytes"
+	"encoding/csv"
 	"encoding/hex"
 	"errors"
 	"fmt"
@@ -42,6 +43,9 @@ type c19Rec struct {
 	CRLF   bool     `json:"crlf"`
 	Fin    bool     `json:"final_newline"`
 	Blanks []string `json:"blanks,omitempty"` // whitespace content of each blank line after the record (LF is added)
+	// Gap makes the file MALFORMED: a blank line is inserted after line Gap of the record (0 = the header line)
+	// when a sequence line follows. Such files are only used by c19GapFile (NewIndex must reject them).
+	Gap *int `json:"gap_after_line,omitempty"`
 }
 
 type c19File struct {
@@ -109,6 +113,9 @@ func (f c19File) render() ([]byte, []c19Truth) {
 			}
 			if i == 1 {
 				t.bytesPerLine = out.Len() - int(t.start)
+			}
+			if r.Gap != nil && *r.Gap == i && i < len(lines)-1 {
+				out.WriteString(r.eol())
 			}
 		}
 		if len(lines) == 1 {
@@ -468,18 +475,21 @@ func c19File1(c *ctx, f c19File, opt c19Opts, d *Driver, impl *[]string) {
 		var back fai.Index
 		var rerr error
 		o = guard(func() { back, rerr = fai.ReadFrom(bytes.NewReader(wbuf.Bytes())) })
-		quoted := bytes.IndexByte(wbuf.Bytes(), '"') >= 0
-		qcls := ""
-		if quoted {
-			qcls = ".quote-in-name"
-		}
 		switch {
 		case o.panicked:
-			r.fail("fai.roundtrip.panic"+qcls, o.panicVal, in())
+			r.fail("fai.roundtrip.panic", o.panicVal, in())
 		case rerr != nil:
-			r.fail("fai.roundtrip.error"+qcls, fmt.Sprintf("ReadFrom(WriteTo(idx)): %v", rerr), in())
+			// The recorded finding is exactly: a name contains a double quote, encoding/csv reports a quoting
+			// error (bare quote, unterminated quoted field, or the field count a swallowed line produces), and the
+			// SAME index with the quotes replaced by 'q' survives the round trip. Anything else keeps the
+			// unlisted signature fai.roundtrip.error.
+			sig := "fai.roundtrip.error"
+			if c19QuoteFinding(idx, rerr) {
+				sig += ".quote-in-name"
+			}
+			r.fail(sig, fmt.Sprintf("ReadFrom(WriteTo(idx)): %v", rerr), in())
 		case !reflect.DeepEqual(back, idx):
-			r.fail("fai.roundtrip.differs"+qcls, fmt.Sprintf("ReadFrom(WriteTo(idx)) = %v, idx = %v", back, idx), in())
+			r.fail("fai.roundtrip.differs", fmt.Sprintf("ReadFrom(WriteTo(idx)) = %v, idx = %v", back, idx), in())
 		}
 		if !o.panicked && !c19HasQuotedField(wbuf.Bytes()) {
 			add(c19ReadFromStr(back, rerr), "c19.readfrom %s", hexs(wbuf.Bytes()))
@@ -559,6 +569,44 @@ func c19File1(c *ctx, f c19File, opt c19Opts, d *Driver, impl *[]string) {
 	}
 }
 
+// c19GapFile: a file that is well formed except for one blank line inside a record (between the header and
+// the sequence, or between two sequence lines). An FAI record cannot describe it, so NewIndex must reject it;
+// accepting it and handing out wrong bases is the failure (judged with the generator's own bases).
+func c19GapFile(c *ctx, f c19File, d *Driver, impl *[]string) {
+	r := c.res
+	data, _ := f.render()
+	in := c19Input{Kind: "gap-file", File: &f}
+	var idx fai.Index
+	var err error
+	o := guard(func() { idx, err = fai.NewIndex(bytes.NewReader(data)) })
+	if o.panicked {
+		r.fail("fai.newindex.panic:"+topRepoFrame(o.stack), o.panicVal, in)
+		return
+	}
+	r.eval("gap:"+hexs(data), true)
+	r.hist("gap-file." + c19NewIndexClass(err))
+	line := c19NewIndexClass(err)
+	if err == nil {
+		line = c19IndexStr(idx, false)
+		for i, rec := range f.Recs {
+			if rec.Gap == nil {
+				continue
+			}
+			got := c19DoRead(data, idx, rec.Name, true, 0, 0, []int{4096})
+			if got.outcome != "" || string(got.data) != rec.Bases {
+				ri := in
+				ri.Rec = i
+				r.fail("fai.newindex.accepts-blank-inside-record", fmt.Sprintf("NewIndex accepts a blank line inside record %s and Seq reads %q (outcome %q), bases are %q",
+					rec.Name, c19Trunc(string(got.data)), got.outcome, c19Trunc(rec.Bases)), ri)
+			}
+		}
+	}
+	if d != nil {
+		d.add("c19.index %s", hexs(data))
+		*impl = append(*impl, line)
+	}
+}
+
 // c19JudgeRead is the property oracle for one range read: exactly the bases, then io.EOF.
 func c19JudgeRead(r *Result, got c19Read, want string, cls string, ri c19Input) {
 	switch {
@@ -591,6 +639,40 @@ func c19Trunc(s string) string {
 		return s[:80] + "..."
 	}
 	return s
+}
+
+// c19QuoteFinding decides whether a failed WriteTo/ReadFrom round trip is the recorded quote-in-name finding
+// and nothing else: (1) some name contains '"', (2) the error is a *csv.ParseError about quoting, (3) with
+// every '"' in the names replaced by 'q' (names staying distinct) the round trip of the same records succeeds.
+func c19QuoteFinding(idx fai.Index, rerr error) bool {
+	hasQuote := false
+	for name := range idx {
+		if strings.Contains(name, "\"") {
+			hasQuote = true
+		}
+	}
+	if !hasQuote {
+		return false
+	}
+	var pe *csv.ParseError
+	if !errors.As(rerr, &pe) || !(pe.Err == csv.ErrBareQuote || pe.Err == csv.ErrQuote || pe.Err == csv.ErrFieldCount) {
+		return false
+	}
+	clean := fai.Index{}
+	for name, rec := range idx {
+		n := strings.ReplaceAll(name, "\"", "q")
+		if _, dup := clean[n]; dup {
+			return false // cannot build the control; do not mask
+		}
+		rec.Name = n
+		clean[n] = rec
+	}
+	var w bytes.Buffer
+	if err := fai.WriteTo(&w, clean); err != nil {
+		return false
+	}
+	back, err := fai.ReadFrom(bytes.NewReader(w.Bytes()))
+	return err == nil && reflect.DeepEqual(back, clean)
 }
 
 func c19HasQuotedField(text []byte) bool {
@@ -1021,7 +1103,7 @@ func checkC19(c *ctx) {
 		"description, blank (whitespace-only) lines before the first and after any record, last record with or without final newline; (c) a few files with lines longer than 64 KiB. " +
 		"Every (record,start,end) with 0<=start<=end<=length for records up to 12 bases (else whole + boundary-biased random ranges), " +
 		"each read with buffer-size sequences over {1,2,3,7,64,4096} used cyclically. One evaluation = one range read with one size sequence; " +
-		"non-trivial = non-empty range; distinct = distinct (file,record,range,sizes). Malformed FASTA bytes and malformed .fai text are compared " +
+		"non-trivial = non-empty range; distinct = distinct (file,record,range,sizes). Files with one blank line inside a record (gap files) must be rejected by NewIndex (oracle: if accepted, the gapped record must still read as its bases). Malformed FASTA bytes and malformed .fai text are compared " +
 		"with the model on error class / accepted records only."
 	if c.replay != "" {
 		var in c19Input
@@ -1125,6 +1207,38 @@ func checkC19(c *ctx) {
 		c19Hist(r, f)
 		c19File1(c, f, c19Opts{nRandom: 10, sizeLists: c19SizeLists(c.rnd, 2)}, d, &impl)
 	}
+	// (b') the same kind of files with one blank line INSIDE a record: must be rejected
+	nGap := 150
+	if c.thorough() {
+		nGap = 4000
+	}
+	for _, bases := range []string{"ACGTACGTAC", "ACGT", "ACGTACGT"} {
+		for g := 0; g <= 2; g++ {
+			for _, crlf := range []bool{false, true} {
+				g := g
+				f := c19File{Recs: []c19Rec{{Name: "a", Bases: bases, Width: 4, CRLF: crlf, Fin: true, Gap: &g},
+					{Name: "b", Bases: "GGG", Width: 4, CRLF: crlf, Fin: true}}}
+				if nl := (len(bases) + 3) / 4; g < nl {
+					c19GapFile(c, f, d, &impl)
+				}
+			}
+		}
+	}
+	for i := 0; i < nGap; i++ {
+		f := c19RandomFile(c.rnd, false)
+		k := c.rnd.intn(len(f.Recs))
+		rec := &f.Recs[k]
+		nl := (len(rec.Bases) + rec.Width - 1) / rec.Width
+		if nl == 0 {
+			continue
+		}
+		g := c.rnd.intn(nl) // 0 = after the header, j = after sequence line j
+		rec.Gap = &g
+		c19GapFile(c, f, d, &impl)
+		if i == 0 {
+			r.sample(c19Input{Kind: "gap-file", File: &f})
+		}
+	}
 	// (c) lines longer than bufio.Scanner's default 64 KiB token limit
 	for _, w := range []int{65535, 65536, 70001} {
 		f := c19File{Recs: []c19Rec{
@@ -1164,6 +1278,10 @@ func c19Replay(c *ctx, in c19Input) {
 			}
 		}
 		c19File1(c, *in.File, c19Opts{allRanges: small, nRandom: 20, sizeLists: [][]int{sizes, {1}, {4096}}}, nil, nil)
+	case "gap-file":
+		if in.File != nil {
+			c19GapFile(c, *in.File, nil, nil)
+		}
 	case "fasta-bytes":
 		data, _ := hex.DecodeString(strings.TrimPrefix(in.Raw, "-"))
 		o := guard(func() { fai.NewIndex(bytes.NewReader(data)) })
